@@ -200,7 +200,7 @@ class C16(Check):
             finally:
                 seams.undo()
         res.digest = jdigest([res.violations, dict(res.stats)])
-        res.sample = {k: v for k, v in scn.items() if k not in ("seed", "run", "property")}
+        res.sample = {k: v for k, v in scn.items() if k not in ("verif_seed", "run_index", "property")}
         return res
 
     def shrink(self, scn):
